@@ -2735,6 +2735,12 @@ func (f *fragment) unprotectedRows(start uint64, filters ...rowFilter) []uint64 
 	for i.Next() {
 		key, c := i.Value()
 
+		// A container stays in storage after its last bit is cleared; it
+		// does not make its row exist.
+		if c == nil || c.N() == 0 {
+			continue
+		}
+
 		// virtual row for the current container
 		vRow := key >> shardVsContainerExponent
 
